@@ -15,11 +15,28 @@ def advance(line, col, chunk):
 
 class Lexed: pass
 
+_MATCHERS = {}
+def regex_matchers(g):
+    """reference matchers for the regex terms of g (cached per grammar key)"""
+    k = g.key()
+    m = _MATCHERS.get(k)
+    if m is None:
+        from . import ref_regex as rr
+        m = {}
+        for j, t in enumerate(g.terms):
+            if t.kind == 'r':
+                dfa = rr.RefDFA(rr.parse(t.text.encode('latin-1')))
+                m[j] = (lambda data, pos, dfa=dfa: max(0, dfa.longest_prefix(data, pos)))
+        if len(_MATCHERS) > 500: _MATCHERS.clear()
+        _MATCHERS[k] = m
+    return m
+
 def lex(g, data, skip_ws=True, skip_nl=True, matchers=None):
     """Returns Lexed: toks [(term, off, len, line, col)], lexerr (off, line, col) or None, eof (off, line, col)"""
     ws = (WS_NL if skip_nl else WS_NONL) if skip_ws else b''
     out = Lexed(); out.toks = []; out.lexerr = None
     pos = 0; line = 1; col = 1; n = len(data)
+    if matchers is None and any(t.kind == 'r' for t in g.terms): matchers = regex_matchers(g)
     while True:
         s = pos
         while pos < n and data[pos] in ws: pos += 1
@@ -137,6 +154,8 @@ def expect(g, tb, data, skip_ws=True, skip_nl=True, ctx_mode=None, matchers=None
                     node_val[id(node)] = kid_val(kids[0])       # moved through, no event
                 else:
                     v = fresh(); ev.append('D%d(%s)=%d;' % (TAG[vt], ''.join(args), v)); node_val[id(node)] = v
+            elif rule.ftor[0] == 'e' and rule.ftor[1:].isdigit():
+                node_val[id(node)] = kid_val(node.kids[int(rule.ftor[1:]) - 1])      # _eK forwards the K-th value, no functor event
             else:
                 node_val[id(node)] = None
             trace.append(('red', r)); trace.append(('goto', sm(a[2])))
